@@ -263,6 +263,7 @@ TARGETS = {
              "targets/hist_s3.cpp", "targets/hist_s4.cpp"],
     "fence": ["targets/fence.cpp"],
     "comp": ["targets/comp.cpp"],
+    "obj": ["targets/obj.cpp"],
 }
 
 
